@@ -184,10 +184,47 @@ def sensor_set(ctx: Ctx, rng):
     return out, meta
 
 
-def build_app(ctx: Ctx, start: str, step: int, n_steps: int, n_targets: int, sensors, target_props=None):
+def twilight_sites(base_sensor: dict, epoch, first_id: int):
+    """Variants of a ground optical sensor placed (public LLA keys) where the Sun is 105 deg +- d from the
+    geocentric site direction at `epoch`: the site-darkness rule at its edge."""
+    from resonaate.physics.bodies.third_body import Sun
+    from resonaate.physics.time.stardate import datetimeToJulianDate
+    k = G.consts()
+    sun = np.asarray(Sun.getPosition(datetimeToJulianDate(epoch)), float).reshape(3)
+    shat = G.rot_eci2ecef(epoch) @ (sun / np.linalg.norm(sun))
+    lon_s = math.atan2(shat[1], shat[0])
+    out = []
+
+    def sun_angle(lat, lon, h=0.1):
+        n = k["RE"] / math.sqrt(1 - k["E2"] * math.sin(lat) ** 2)
+        r = np.array([(n + h) * math.cos(lat) * math.cos(lon), (n + h) * math.cos(lat) * math.sin(lon),
+                      (n * (1 - k["E2"]) + h) * math.sin(lat)])
+        return G.ang(shat, r)
+
+    for n, d in enumerate((-0.05, -1e-3, -1e-7, 1e-7, 1e-3, 0.05)):
+        lat = math.radians((-25.0, 10.0, 35.0)[n % 3])
+        want = math.pi / 2 + math.pi / 12 + d
+        lo, hi = lon_s, lon_s + math.pi            # the Sun angle grows monotonically from noon to midnight
+        if not sun_angle(lat, lo) < want < sun_angle(lat, hi):
+            continue
+        for _ in range(80):
+            mid = 0.5 * (lo + hi)
+            lo, hi = (mid, hi) if sun_angle(lat, mid) < want else (lo, mid)
+        lon = math.degrees(G.wrap_pi(0.5 * (lo + hi)))
+        v = _variant(base_sensor, first_id + n, f"twilight site {n}", tiny=True, background_observations=False,
+                     field_of_view={"fov_shape": "conic", "cone_angle": 8.0}, azimuth_range=[0.0, 359.99999],
+                     elevation_range=[0.0, 89.99999])
+        v["state"] = {"type": "lla", "latitude": math.degrees(lat), "longitude": lon, "altitude": 0.1}
+        out.append(v)
+    return out
+
+
+def build_app(ctx: Ctx, start: str, step: int, n_steps: int, n_targets: int, sensors, target_props=None,
+              truth_only=False):
     from .. import scenario_util as su
     cfg = su.base_config(start=start, step=step, n_steps=n_steps, n_targets=n_targets, n_sensors=1,
-                         template="main_init.json", decision="MunkresDecision", seed=ctx.seed + 1)
+                         template="main_init.json", decision="MunkresDecision", seed=ctx.seed + 1,
+                         truth_only=truth_only)
     cfg["engines"][0]["sensors"] = copy.deepcopy(sensors)
     for t, props in zip(cfg["engines"][0]["targets"], target_props or ()):
         t["platform"]["visual_cross_section"] = props["area"]
@@ -197,9 +234,10 @@ def build_app(ctx: Ctx, start: str, step: int, n_steps: int, n_targets: int, sen
 
 # ----------------------------------------------------------------------------- one attempt
 class Runner:
-    def __init__(self, ctx: Ctx, app, start_dt, meta):
+    def __init__(self, ctx: Ctx, app, start_dt, meta, estimates=None):
         from resonaate.physics.bodies.third_body import Sun
         self.ctx, self.app, self.start, self.meta = ctx, app, start_dt, meta
+        self.estimates = estimates if estimates is not None else app.estimate_agents
         self.k = G.consts()
         self.Sun = Sun
         self.records, self.inputs = [], []
@@ -332,20 +370,15 @@ class Runner:
             worst = max(worst, err / tol)
         e = int(min(10 ** 6, math.ceil(100.0 * worst)))
         if e > 100:
-            # diagnosis for the signature: does the report match the geometry one second off?
+            # diagnosis for the signature: which component, and does the report match one second off?
+            det["worst"] = max((lab for lab in labels if det.get(lab)), key=lambda lab: det[lab][1] / det[lab][2])
             det["epoch_shift"] = None
             for sh in (-1.0, 1.0):
-                site2 = G.Site(sa.eci_state, auth + timedelta(seconds=sh), self.k)
-                L2 = site2.look(tgt.eci_state)
-                ok = True
-                for i, lab in enumerate(labels):
-                    if lab in ("azimuth_rad", "elevation_rad") and det.get(lab):
-                        sig = math.sqrt(float(r[i, i]))
-                        ref = L2["az"] if lab == "azimuth_rad" else L2["el"]
-                        d = abs(G.wrap_pi(det[lab][0] - ref))
-                        tol = (1e-9 / max(L2["coshor"], 1e-12) if lab == "azimuth_rad" else 1e-9) + 6.0 * sig
-                        ok = ok and d <= tol
-                if ok:
+                L2 = G.Site(sa.eci_state, auth + timedelta(seconds=sh), self.k).look(tgt.eci_state)
+                ref = {"azimuth_rad": L2["az"], "elevation_rad": L2["el"], "range_km": L2["rng"],
+                       "range_rate_km_p_sec": L2["rr"]}
+                if all(abs(G.wrap_pi(det[lab][0] - ref[lab]) if "rad" in lab else det[lab][0] - ref[lab]) <= det[lab][2]
+                       for lab in labels if det.get(lab)):
                     det["epoch_shift"] = sh
         return e, det
 
@@ -396,7 +429,7 @@ def sweep(run: Runner, rng, per_sensor: int, max_bg: int):
         base = (np.array(s.boresight, float).copy(), float(s.time_last_tasked))
         for n, tid in enumerate(chosen):
             tgt = app.target_agents[tid]
-            est = np.array(app.estimate_agents[tid].eci_state, float)
+            est = np.array(run.estimates[tid].eci_state, float)
             mode = n % 4
             if mode == 1:            # estimate displaced by a fraction of the field of view
                 kind = run.meta[sa.simulation_id]["cfg"]["sensor"]["type"]
@@ -426,11 +459,23 @@ def synthetic(run: Runner, rng, scale: int, select):
     prim, b1, b2, b3 = tgts
     try:
         for i, sa in enumerate(app.sensor_agents.values()):
-            if select(i):
+            if run.meta[sa.simulation_id]["origin"].endswith("twilight site"):
+                _twilight_scenes(run, rng, sa, prim)
+            elif select(i):
                 _synthetic_sensor(run, rng, sa, prim, [b1, b2, b3], scale)
     finally:
         for t, st in zip(tgts, saved):
             t.eci_state = st
+
+
+def _twilight_scenes(run: Runner, rng, sa, prim):
+    """A sunlit target high above a site whose Sun angle sits at the darkness limit +- d."""
+    site, _ = run.site_of(sa)
+    for az, el, r in ((0.4, 1.1, 1500.0), (2.0, 0.8, 2500.0), (3.9, 1.3, 4000.0), (5.5, 0.6, 1800.0)):
+        prim.eci_state = place(site, az, el, r, rand_vel(rng))
+        Lp = site.look(prim.eci_state)
+        run.attempt(sa, prim, np.array(prim.eci_state, float), [], "twilight",
+                    (rotate_from(Lp["sez"], 0.2, rng), 0.0))
 
 
 def _synthetic_sensor(run: Runner, rng, sa, prim, bgs, scale):   # noqa: C901, PLR0912, PLR0915
@@ -491,7 +536,7 @@ def _synthetic_sensor(run: Runner, rng, sa, prim, bgs, scale):   # noqa: C901, P
                bg_states=[place(site, (azt + 0.4 * half_az) % G.TWO_PI, el, r_nom * 1.1, rand_vel(rng))])
     # -- 3. near the zenith
     for eps in (1e-2, 1e-4, 1e-6, 1e-9, 0.0):
-        for azt in (0.3, 2.1, 4.0):
+        for azt in (0.3, 2.1, 4.0)[:2 if scale == 1 else 3]:
             el = math.pi / 2 - eps
             go("zenith", place(site, azt, el, r_nom, rand_vel(rng)),
                place(site, (azt + 1.0) % G.TWO_PI, math.pi / 2 - eps * 0.5 - 1e-3, r_nom, [0, 0, 0]))
@@ -544,14 +589,14 @@ def _synthetic_sensor(run: Runner, rng, sa, prim, bgs, scale):   # noqa: C901, P
                 go("limb-tangent", place_dir(site, dirv, rs * math.cos(eta) * rng.choice((0.4, 1.7)), rand_vel(rng)))
     else:
         for el in (-2e-3, -1e-5, 0.0, 1e-5, 2e-3, 6e-3):
-            for azt in (0.0, 1.6, 3.1, 4.7):
+            for azt in (0.0, 1.6, 3.1, 4.7)[:2 if scale == 1 else 4]:
                 go("horizon", place(site, azt, el, 2500.0, rand_vel(rng)))
     if kind == "optical":
         D = float(np.linalg.norm(sun))
         shat = sun / D
         sin_a = (k["RSUN"] - k["RE"]) / D
         # -- 9. shadow: target on the umbra cone +- delta (km)
-        for xb in (7500.0, 15000.0, 42000.0):
+        for xb in (7500.0, 15000.0, 42000.0)[:2 if scale == 1 else 3]:
             rad_c = (k["RE"] / sin_a - xb) * sin_a / math.sqrt(1 - sin_a ** 2)
             for d in (1e-7, 1e-2, 5.0, 300.0):
                 for sgn in (-1, 1):
@@ -632,7 +677,9 @@ def classify(inv: str, rec: dict, inp: dict) -> tuple[str, str]:
         if shifts and all(s is not None for s in shifts):
             return ("obs-epoch-off-by-1s", f"{who}: reported az/el equal the geometry {shifts[0]:+.0f} s from the "
                     "authoritative epoch (Observation.fromMeasurement inverts the Julian date)")
-        return "obs-measurement-mismatch", f"{who}: reported measurement differs from the independent geometry"
+        worst = sorted({d.get("worst", "?") for d in inp["outcome"]["meas"] if isinstance(d, dict) and "worst" in d})
+        return (f"obs-measurement-mismatch-{'+'.join(worst)}",
+                f"{who}: reported measurement ({', '.join(worst)}) differs from the independent geometry")
     if inv == "MissReasonTrue_impl":
         for m in o["miss"]:
             vec = p if m["t"] == 0 else rec["bg"][m["t"] - 1]
@@ -758,27 +805,56 @@ def run(ctx: Ctx):
     ctx.extra["attempts"] = stats
 
 
+def _advance_truth_only(app_b, app_a):
+    app_b.stepForward()
+    if float(app_b.clock.time) != float(app_a.clock.time):
+        raise tlc.MachineryError("the two scenarios of a plan are out of step")
+    for tid, t in app_b.target_agents.items():
+        if not np.allclose(t.eci_state, app_a.target_agents[tid].eci_state, rtol=0, atol=1e-6):
+            raise tlc.MachineryError(f"truth of target {tid} differs between the two scenarios of a plan")
+
+
 def drive(ctx: Ctx, rng):
+    from .. import scenario_util as su
     sensors, meta = sensor_set(ctx, rng)
+    optical_site = su._parsed("main_init.json")["engines"][0]["sensors"][3]
     plans = [("2018-12-01T12:00:00", 300, 2), ("2019-06-21T03:14:07", 60, 1)] if ctx.quick else \
-            [("2018-12-01T12:00:00", 300, 4), ("2019-06-21T03:14:07", 60, 3), ("2020-03-20T18:29:43", 120, 3),
-             ("2021-09-10T08:00:30", 600, 3)]
+            [("2018-12-01T12:00:00", 300, 3), ("2019-06-21T03:14:07", 60, 2), ("2020-03-20T18:29:43", 120, 2),
+             ("2021-09-10T08:00:30", 600, 2)]
     records, inputs = [], []
     stats_all = []
+    # Two real scenarios per plan, stepped in lockstep: A = sensors with their configured noise inside the
+    # full simulation (estimation + tasking; supplies the real estimates), B = the "noise off" variants
+    # (covariance 1e-24) in a truth-only simulation, so that the simulator's own filters never ingest
+    # their (unrealistically exact) observations.
+    sens_a = [d for d in sensors if meta[d["id"]]["noise"] == "config"]
+    sens_b = [d for d in sensors if meta[d["id"]]["noise"] != "config"]
     for pi, (start, step, nsteps) in enumerate(plans):
-        app, start_dt = build_app(ctx, start, step, nsteps + 1, 10 if ctx.quick else 30, sensors)
-        run = Runner(ctx, app, start_dt, meta)
+        last = su.parse_iso(start) + timedelta(seconds=step * nsteps)
+        extra = twilight_sites(optical_site, last, 140000 + 10 * pi)
+        pmeta = dict(meta)
+        for d in extra:
+            pmeta[d["id"]] = {"noise": "tiny", "origin": "main_init+twilight site", "cfg": d}
+        n_tg = 10 if ctx.quick else 24
+        app_b, start_dt = build_app(ctx, start, step, nsteps + 1, n_tg, sens_b + extra, truth_only=True)
+        app_a, _ = build_app(ctx, start, step, nsteps + 1, n_tg, sens_a)        # built last: owns the shared DB
+        runs = [Runner(ctx, app_a, start_dt, pmeta), Runner(ctx, app_b, start_dt, pmeta, app_a.estimate_agents)]
         for n in range(nsteps):
-            app.stepForward()
-            sweep(run, rng, per_sensor=6 if ctx.quick else 20, max_bg=3)
-            if not ctx.quick:
-                synthetic(run, rng, 2, lambda i: True)
-            elif n == nsteps - 1:
-                synthetic(run, rng, 1, lambda i, pi=pi: i % len(plans) == pi)
-        records += run.records
-        inputs += run.inputs
-        run.stats["start"] = start
-        stats_all.append(run.stats)
+            app_a.stepForward()
+            _advance_truth_only(app_b, app_a)
+            for run in runs:
+                sweep(run, rng, per_sensor=6 if ctx.quick else 12, max_bg=3)
+                if n == nsteps - 1:
+                    if ctx.quick:
+                        synthetic(run, rng, 1, lambda i, pi=pi: i % len(plans) == pi)
+                    else:
+                        synthetic(run, rng, 2, lambda i: True)
+        for run in runs:
+            records += run.records
+            inputs += run.inputs
+            run.stats["start"] = start
+            run.stats["twilight_sites"] = len(extra)
+            stats_all.append(run.stats)
     return records, inputs, stats_all
 
 
